@@ -134,6 +134,9 @@ def run_scenario(sc):
     async def scenario(loop, net):
         global CL
         CL = net
+        if sc.get("obs_cancel"):
+            import closeobs
+            closeobs.install_cancel_observer(loop)
         for m in sc.get("migrations") or []:
             def mig(m=m):
                 net.log("t", m["partition"]).leader = m["to"]
@@ -318,8 +321,19 @@ def run_scenario(sc):
         out["resolve_time"] = loop.time() - t_quiet
         t0 = loop.time()
         pre_stop_unresolved = sum(1 for f in futs if not f.done())
+        if not p._closed:
+            try:
+                import closeobs
+                out["stop_tasks"] = closeobs.snapshot_producer(p)
+                _mark = len(getattr(loop, "_cancel_log", []))
+            except Exception as e:  # noqa: BLE001
+                out["stop_tasks"] = {"error": repr(e)}
         try:
-            await asyncio.wait_for(p.stop(), timeout=sc.get("stop_within", 300.0))
+            try:
+                await asyncio.wait_for(p.stop(), timeout=sc.get("stop_within", 300.0))
+            finally:
+                if out.get("stop_tasks") and "error" not in out["stop_tasks"]:
+                    out["stop_tasks"] = closeobs.join_time_states(out["stop_tasks"], loop, _mark, [p._sender, p.client])
             out["stop"] = {"t": loop.time() - t0, "unresolved_before": pre_stop_unresolved,
                            "unresolved_after": sum(1 for f in futs if not f.done())}
         except asyncio.TimeoutError:
